@@ -333,7 +333,19 @@ impl<M: wire::Decode> wire::Decode for Frame<M> {
             Ok(StreamKind::Gossip) => {
                 let data = varint::payload::decode(reader)?;
                 let mut cursor = io::Cursor::new(data);
-                let msg = M::decode(&mut cursor)?;
+                // Nb. The frame payload is complete at this point. If the message
+                // inside of it is truncated, the frame is invalid: report it as such,
+                // and not as an end-of-file, which means "wait for more data".
+                let msg = M::decode(&mut cursor).map_err(|e| {
+                    if e.is_eof() {
+                        wire::Error::Io(io::Error::new(
+                            io::ErrorKind::InvalidData,
+                            "gossip message is truncated",
+                        ))
+                    } else {
+                        e
+                    }
+                })?;
                 let frame = Frame {
                     version,
                     stream,
